@@ -171,6 +171,8 @@ pub struct Child {
     pub omega: bool,
     /// the stream invokes its own waker in the poll in which it returns None
     pub wake_on_end: bool,
+    /// (streams) the destructor panics when the crate drops the stream
+    pub drop_panic: bool,
     pub cursor: usize,
     pub fed: bool,
     pub last_answer: Ans,
@@ -502,6 +504,7 @@ impl World {
             script: Vec::new(),
             omega: false,
             wake_on_end: false,
+            drop_panic: false,
             cursor: 0,
             fed: false,
             last_answer: Ans::None,
@@ -1306,7 +1309,23 @@ impl Drop for ScriptStream {
     fn drop(&mut self) {
         let id = self.id;
         let addr = self as *const Self as usize;
-        callback(|| w(|w| child_dropped(w, id, addr)))
+        let by_crate = inside_crate();
+        let boom = callback(|| {
+            w(|w| {
+                child_dropped(w, id, addr);
+                let c = &w.children[id as usize];
+                if by_crate && c.drop_panic && c.drops == 1 && !std::thread::panicking() {
+                    w.drop_panics += 1;
+                    w.logf(|| format!("    source {}'s destructor panics", id));
+                    true
+                } else {
+                    false
+                }
+            })
+        });
+        if boom {
+            std::panic::resume_unwind(Box::new(ChildPanic(id)));
+        }
     }
 }
 
